@@ -147,7 +147,8 @@ def gen_mark(rnd, tier):
 from pyvc.api import REG as _REG
 _REG.contracts[(RENDER, 'ErrorRender.Quotation.__cause_range')].replay = '_q_cause_range'
 _REG.contracts[(RENDER, 'ErrorRender.Quotation.__build_line_mark')].replay = '_q_line_mark'
-TWINS = {'Token.SourceMap.make': gen_make, 'ErrorRender.Quotation.__cause_range': gen_range, 'ErrorRender.Quotation.__build_line_mark': gen_mark}
+import contracts.c07 as _c07  # noqa: E402  (the quotation line loader is shared with C07: a line index addresses lines separated by \\n only)
+TWINS = {'ErrorRender.Quotation.__load_line': _c07.gen_load_line, 'Token.SourceMap.make': gen_make, 'ErrorRender.Quotation.__cause_range': gen_range, 'ErrorRender.Quotation.__build_line_mark': gen_mark}
 
 
 def extra_checks(tier, seed, active_known):
